@@ -1,9 +1,11 @@
-//! K-alloc (K-pair twins of unit V-alloc): bounded contract harnesses of the real
+//! K-alloc (K-pair twins of unit V-alloc): bounded *scenario* harnesses of the real
 //! `entity::allocator::Allocator`.  Child module of `crate::entity::allocator`.
-//! Bound: at most 3 slots before the call, batches of at most 3 rows.  Everything else
-//! (generations, which slots are active, order of the free list, identifier under test) is
-//! symbolic.  NOT counted as proof: the unbounded proof is unit V-alloc; these run as a
-//! referee that produces a concrete failing input when V fails or cannot read the code.
+//!
+//! Bound: the shape of the allocator before the call is one of the SHAPES below (<= 3 slots,
+//! built through the real API so that the VecDeque stays concrete -- a VecDeque of symbolic
+//! length costs CBMC > 10 min here); slot generations and row numbers are symbolic; batches of
+//! 0..=3 rows.  NOT counted as proof: the unbounded proof is unit V-alloc; these run as the
+//! referee that yields a concrete failing input when V fails or cannot read a rewritten function.
 use super::*;
 use crate::{
     archetype,
@@ -16,61 +18,57 @@ pub struct A(u8);
 pub struct B(u8);
 type R = Registry!(A, B);
 
-const N: usize = 3;
-
 fn ident(bits: u8) -> archetype::Identifier<R> {
     unsafe { archetype::Identifier::<R>::new(vec![bits]) }
 }
 
-/// a symbolic allocator satisfying the representation invariant, with <= N slots.
-/// Capacity is reserved up front so that no reallocation happens inside the harness.
-fn any_wf_allocator(idref: archetype::IdentifierRef<R>) -> Allocator<R> {
-    let n: usize = kani::any();
-    kani::assume(n <= N);
+const SHAPES: usize = 6;
+
+/// shape -> (number of slots, indices freed in this order, how many freed)
+fn shape(k: usize) -> (usize, [usize; 3], usize) {
+    match k {
+        0 => (0, [0, 0, 0], 0),
+        1 => (1, [0, 0, 0], 0),
+        2 => (2, [0, 0, 0], 1),
+        3 => (3, [0, 1, 0], 2),
+        4 => (3, [2, 0, 0], 2),
+        _ => (3, [1, 2, 0], 3),
+    }
+}
+
+/// builds the allocator of shape `k` through the real API, then makes generations symbolic
+fn build(k: usize, idref: archetype::IdentifierRef<R>) -> Allocator<R> {
+    let (n, freed, nf) = shape(k);
     let mut a = Allocator::<R>::new();
-    a.slots.reserve(2 * N);
-    a.free.reserve(2 * N);
-    let mut inactive = [false; N];
+    let mut ids = [entity::Identifier::new(0, 0); 3];
     let mut i = 0;
-    while i < N {
-        if i < n {
-            let generation: u64 = kani::any();
-            kani::assume(generation < u64::MAX); // A5
-            let active: bool = kani::any();
-            let row: usize = kani::any();
-            a.slots.push(Slot {
-                generation,
-                location: if active { Some(Location::new(idref, row)) } else { None },
-            });
-            inactive[i] = !active;
-        }
+    while i < n {
+        ids[i] = a.allocate(Location::new(idref, kani::any()));
         i += 1;
     }
-    // free list: the inactive slots in a symbolic order (rotation + optional reversal of 0,1,2)
-    let rot: usize = kani::any();
-    kani::assume(rot < N);
-    let rev: bool = kani::any();
-    let mut k = 0;
-    while k < N {
-        let j = (k + rot) % N;
-        let s = if rev { N - 1 - j } else { j };
-        if inactive[s] {
-            a.free.push_back(s);
-        }
-        k += 1;
+    i = 0;
+    while i < nf {
+        unsafe { a.free_unchecked(ids[freed[i]]) };
+        i += 1;
+    }
+    i = 0;
+    while i < n {
+        let g: u64 = kani::any();
+        kani::assume(g < u64::MAX); // A5
+        a.slots[i].generation = g;
+        i += 1;
     }
     a
 }
 
-/// exec form of V-alloc's `wf` (single passes over a bit mask; no nested loops)
-fn wf(a: &mut Allocator<R>) -> bool {
+/// exec form of V-alloc's `wf`
+fn wf(a: &Allocator<R>) -> bool {
     let mut ok = true;
     let mut seen: u32 = 0;
     let n_slots = a.slots.len();
-    let (fr0, fr1) = a.free.as_slices();
     let mut k = 0;
-    while k < fr0.len() + fr1.len() {
-        let s = if k < fr0.len() { fr0[k] } else { fr1[k - fr0.len()] };
+    while k < a.free.len() {
+        let s = a.free[k];
         if s < n_slots && s < 32 {
             ok = ok && a.slots[s].location.is_none() && (seen >> s) & 1 == 0;
             seen |= 1 << s;
@@ -96,16 +94,16 @@ fn resolves(a: &Allocator<R>, id: entity::Identifier) -> bool {
 #[derive(Clone, Copy)]
 struct Snap {
     len: usize,
-    generation: [u64; N],
-    active: [bool; N],
-    row: [usize; N],
+    generation: [u64; 3],
+    active: [bool; 3],
+    row: [usize; 3],
     free_len: usize,
 }
 
 fn snap(a: &Allocator<R>) -> Snap {
-    let mut s = Snap { len: a.slots.len(), generation: [0; N], active: [false; N], row: [0; N], free_len: a.free.len() };
+    let mut s = Snap { len: a.slots.len(), generation: [0; 3], active: [false; 3], row: [0; 3], free_len: a.free.len() };
     let mut i = 0;
-    while i < a.slots.len() && i < N {
+    while i < a.slots.len() && i < 3 {
         s.generation[i] = a.slots[i].generation;
         s.active[i] = a.slots[i].location.is_some();
         s.row[i] = a.slots[i].location.map_or(0, |l| l.index);
@@ -115,9 +113,9 @@ fn snap(a: &Allocator<R>) -> Snap {
 }
 
 fn unchanged_except(a: &Allocator<R>, old: &Snap, except: usize) -> bool {
-    let mut ok = true;
+    let mut ok = a.slots.len() >= old.len;
     let mut i = 0;
-    while i < old.len {
+    while ok && i < old.len {
         if i != except {
             ok = ok
                 && a.slots[i].generation == old.generation[i]
@@ -130,69 +128,66 @@ fn unchanged_except(a: &Allocator<R>, old: &Snap, except: usize) -> bool {
 }
 
 #[kani::proof]
-#[kani::unwind(6)]
+#[kani::unwind(8)]
 fn pair_allocate() {
     let idb = ident(1);
     let idref = unsafe { idb.as_ref() };
-    let mut a = any_wf_allocator(idref);
-    kani::cover!(a.free.len() == 2, "two free slots reachable");
-    let old = snap(&a);
-    let stale: entity::Identifier = entity::Identifier::new(kani::any(), kani::any());
-    let stale_resolved = resolves(&a, stale);
-    let row: usize = kani::any();
-    let id = a.allocate(Location::new(idref, row));
-    assert!(wf(&mut a), "wf preserved by allocate");
-    assert!(resolves(&a, id), "C02.resolves");
-    assert!(a.get(id).unwrap().index == row, "C01.view: new identifier maps to the given location");
-    assert!(id != stale || !stale_resolved, "C02.fresh: identifier did not resolve before");
-    assert!(stale == id || resolves(&a, stale) == stale_resolved, "C02: other identifiers resolve as before");
-    assert!(unchanged_except(&a, &old, id.index), "frame.other_slots");
-    if id.index < old.len {
-        assert!(id.generation == old.generation[id.index].wrapping_add(1), "C02.generation_bumped");
-        assert!(!old.active[id.index], "reused slot was inactive");
-        assert!(a.slots.len() == old.len);
-    } else {
-        assert!(id.index == old.len && id.generation == 0 && a.slots.len() == old.len + 1, "C02.new_slot");
-        assert!(old.free_len == 0, "C13: a new slot is created only when no released slot is available");
+    let mut k = 0;
+    while k < SHAPES {
+        let mut a = build(k, idref);
+        let old = snap(&a);
+        let stale: entity::Identifier = entity::Identifier::new(kani::any(), kani::any());
+        let stale_resolved = resolves(&a, stale);
+        let row: usize = kani::any();
+        let id = a.allocate(Location::new(idref, row));
+        assert!(wf(&a), "wf preserved by allocate");
+        assert!(resolves(&a, id), "C02.resolves");
+        assert!(a.get(id).unwrap().index == row, "C01.view: new identifier maps to the given location");
+        assert!(id != stale || !stale_resolved, "C02.fresh: identifier did not resolve before");
+        assert!(stale == id || resolves(&a, stale) == stale_resolved, "C02: other identifiers resolve as before");
+        assert!(unchanged_except(&a, &old, id.index), "frame.other_slots");
+        if id.index < old.len {
+            assert!(id.generation == old.generation[id.index].wrapping_add(1), "C02.generation_bumped");
+            assert!(!old.active[id.index], "reused slot was inactive");
+            assert!(a.slots.len() == old.len);
+        } else {
+            assert!(id.index == old.len && id.generation == 0 && a.slots.len() == old.len + 1, "C02.new_slot");
+            assert!(old.free_len == 0, "C13: a new slot is created only when no released slot is available");
+        }
+        k += 1;
     }
 }
 
-#[kani::proof]
-#[kani::unwind(8)]
-fn pair_allocate_batch() {
-    let idb = ident(1);
-    let idref = unsafe { idb.as_ref() };
-    let mut a = any_wf_allocator(idref);
+fn check_allocate_batch(k: usize, n: usize, idref: archetype::IdentifierRef<R>) {
+    let mut a = build(k, idref);
     let old = snap(&a);
     let start: usize = kani::any();
-    let n: usize = kani::any();
-    kani::assume(n <= 3 && start < 1000);
-    kani::cover!(a.free.len() > n && n > 0, "free list longer than the batch reachable");
+    kani::assume(start < 1000);
     let stale: entity::Identifier = entity::Identifier::new(kani::any(), kani::any());
     let stale_resolved = resolves(&a, stale);
     let ids = a.allocate_batch(Locations::new(start..(start + n), idref));
-    assert!(wf(&mut a), "wf preserved by allocate_batch (no released slot lost)");
+    assert!(wf(&a), "wf preserved by allocate_batch (no released slot lost)");
     assert!(ids.len() == n, "C01.batch_len");
-    let mut k = 0;
+    let mut j = 0;
     let mut is_new = false;
-    while k < n {
-        assert!(resolves(&a, ids[k]), "C01.batch_order: returned identifier resolves");
-        assert!(a.get(ids[k]).unwrap().index == start + k, "C01.batch_order: k-th identifier maps to k-th row");
-        assert!(ids[k] != stale || !stale_resolved, "C02.fresh");
-        if ids[k] == stale {
+    while j < n {
+        assert!(resolves(&a, ids[j]), "C01.batch_order: returned identifier resolves");
+        assert!(a.get(ids[j]).unwrap().index == start + j, "C01.batch_order: k-th identifier maps to k-th row");
+        assert!(ids[j] != stale || !stale_resolved, "C02.fresh");
+        if ids[j] == stale {
             is_new = true;
         }
-        let mut j = k + 1;
-        while j < n {
-            assert!(ids[j].index != ids[k].index, "C02.distinct");
-            j += 1;
+        let mut m = j + 1;
+        while m < n {
+            assert!(ids[m].index != ids[j].index, "C02.distinct");
+            m += 1;
         }
-        if ids[k].index < old.len {
-            assert!(ids[k].generation == old.generation[ids[k].index].wrapping_add(1), "C02.generation_bumped");
+        if ids[j].index < old.len {
+            assert!(ids[j].generation == old.generation[ids[j].index].wrapping_add(1), "C02.generation_bumped");
         } else {
-            assert!(ids[k].generation == 0, "C02.new_slot");
+            assert!(ids[j].generation == 0, "C02.new_slot");
         }
-        k += 1;
+        j += 1;
     }
     assert!(is_new || resolves(&a, stale) == stale_resolved, "C01.view_dom: other identifiers resolve as before");
     let reused = if old.free_len < n { old.free_len } else { n };
@@ -200,116 +195,81 @@ fn pair_allocate_batch() {
     assert!(a.free.len() == old.free_len - reused, "C13.free_consumed_exactly");
 }
 
+macro_rules! batch_harness {
+    ($name:ident, $shape:expr, $n:expr) => {
+        #[kani::proof]
+        #[kani::unwind(8)]
+        fn $name() {
+            let idb = ident(1);
+            let idref = unsafe { idb.as_ref() };
+            check_allocate_batch($shape, $n, idref);
+        }
+    };
+}
+// free list longer than / equal to / shorter than the batch, and the empty batch
+batch_harness!(pair_allocate_batch_free2_batch1, 3, 1);
+batch_harness!(pair_allocate_batch_free2_batch2, 3, 2);
+batch_harness!(pair_allocate_batch_free2_batch3, 4, 3);
+batch_harness!(pair_allocate_batch_free3_batch0, 5, 0);
+batch_harness!(pair_allocate_batch_free3_batch2, 5, 2);
+batch_harness!(pair_allocate_batch_free0_batch2, 1, 2);
+batch_harness!(pair_allocate_batch_free1_batch1, 2, 1);
+
 #[kani::proof]
-#[kani::unwind(6)]
+#[kani::unwind(8)]
 fn pair_free_modify_get() {
     let idb = ident(1);
     let idref = unsafe { idb.as_ref() };
-    let mut a = any_wf_allocator(idref);
-    let old = snap(&a);
-    let id = entity::Identifier::new(kani::any(), kani::any());
-    let other = entity::Identifier::new(kani::any(), kani::any());
-    let r = resolves(&a, id);
-    let ro = resolves(&a, other);
-    assert!(a.is_active(id) == r, "C02.is_active_is_dom");
-    assert!(a.get(id).is_some() == r, "C02.get_is_view");
-    kani::assume(r);
-    kani::cover!(true, "a live identifier exists");
-    let which: u8 = kani::any();
-    if which == 0 {
-        unsafe { a.free_unchecked(id) };
-        assert!(wf(&mut a), "wf preserved by free_unchecked");
-        assert!(!resolves(&a, id), "C02.dead");
-        assert!(a.free.len() == old.free_len + 1, "C13: released slot becomes available");
-        assert!(a.slots[id.index].generation == old.generation[id.index], "frame.generations");
-    } else if which == 1 {
-        let row: usize = kani::any();
-        unsafe { a.modify_location_index_unchecked(id, row) };
-        assert!(wf(&mut a));
-        assert!(a.get(id).unwrap().index == row, "C02.same_ids: location row updated");
-    } else {
-        let row: usize = kani::any();
-        unsafe { a.modify_location_unchecked(id, Location::new(idref, row)) };
-        assert!(wf(&mut a));
-        assert!(a.get(id).unwrap().index == row);
+    let mut k = 0;
+    while k < SHAPES {
+        let mut a = build(k, idref);
+        let old = snap(&a);
+        let id = entity::Identifier::new(kani::any(), kani::any());
+        let other = entity::Identifier::new(kani::any(), kani::any());
+        let r = resolves(&a, id);
+        let ro = resolves(&a, other);
+        assert!(a.is_active(id) == r, "C02.is_active_is_dom");
+        assert!(a.get(id).is_some() == r, "C02.get_is_view");
+        if r {
+            let which: u8 = kani::any();
+            if which == 0 {
+                unsafe { a.free_unchecked(id) };
+                assert!(wf(&a), "wf preserved by free_unchecked");
+                assert!(!resolves(&a, id), "C02.dead");
+                assert!(a.free.len() == old.free_len + 1, "C13: released slot becomes available");
+                assert!(a.slots[id.index].generation == old.generation[id.index], "frame.generations");
+            } else if which == 1 {
+                let row: usize = kani::any();
+                unsafe { a.modify_location_index_unchecked(id, row) };
+                assert!(wf(&a));
+                assert!(a.get(id).unwrap().index == row, "C02.same_ids: location row updated");
+            } else {
+                let row: usize = kani::any();
+                unsafe { a.modify_location_unchecked(id, Location::new(idref, row)) };
+                assert!(wf(&a));
+                assert!(a.get(id).unwrap().index == row);
+            }
+            assert!(unchanged_except(&a, &old, id.index), "frame.other_slots");
+            assert!(other == id || resolves(&a, other) == ro, "other identifiers resolve as before");
+        }
+        k += 1;
     }
-    assert!(unchanged_except(&a, &old, id.index), "frame.other_slots");
-    assert!(other == id || resolves(&a, other) == ro, "other identifiers resolve as before");
 }
 
 #[kani::proof]
-#[kani::unwind(6)]
+#[kani::unwind(8)]
 fn pair_shrink_to_fit() {
     let idb = ident(1);
     let idref = unsafe { idb.as_ref() };
-    let mut a = any_wf_allocator(idref);
-    let old = snap(&a);
-    a.shrink_to_fit();
-    assert!(wf(&mut a));
-    assert!(a.slots.len() == old.len, "C02.shrink_keeps_slots: no slot (and no generation counter) is dropped");
-    assert!(unchanged_except(&a, &old, usize::MAX), "C02.shrink_keeps_slots");
-    assert!(a.free.len() == old.free_len, "C13.shrink_keeps_free");
-}
-
-#[kani::proof]
-#[kani::unwind(6)]
-fn probe_construct_only() {
-    let idb = ident(1);
-    let idref = unsafe { idb.as_ref() };
-    let a = any_wf_allocator(idref);
-    assert!(a.slots.len() <= N);
-}
-
-#[kani::proof]
-#[kani::unwind(6)]
-fn probe_wf_only() {
-    let idb = ident(1);
-    let idref = unsafe { idb.as_ref() };
-    let mut a = any_wf_allocator(idref);
-    assert!(wf(&mut a));
-}
-
-#[kani::proof]
-#[kani::unwind(6)]
-fn probe_p1_slots_only() {
-    let idb = ident(1);
-    let idref = unsafe { idb.as_ref() };
-    let a = any_wf_allocator(idref);
-    let mut s = 0;
-    let mut cnt = 0;
-    while s < a.slots.len() {
-        if a.slots[s].location.is_none() { cnt += 1; }
-        s += 1;
+    let mut k = 0;
+    while k < SHAPES {
+        let mut a = build(k, idref);
+        let old = snap(&a);
+        a.shrink_to_fit();
+        assert!(wf(&a));
+        assert!(a.slots.len() == old.len, "C02.shrink_keeps_slots: no slot (and no generation counter) is dropped");
+        assert!(unchanged_except(&a, &old, usize::MAX), "C02.shrink_keeps_slots");
+        assert!(a.free.len() == old.free_len, "C13.shrink_keeps_free");
+        k += 1;
     }
-    assert!(cnt <= N);
-}
-
-#[kani::proof]
-#[kani::unwind(6)]
-fn probe_p2_free_iter() {
-    let idb = ident(1);
-    let idref = unsafe { idb.as_ref() };
-    let a = any_wf_allocator(idref);
-    let mut sum = 0usize;
-    for x in a.free.iter() { sum += *x; }
-    assert!(sum <= 3);
-}
-
-#[kani::proof]
-#[kani::unwind(6)]
-fn probe_p3_free_len() {
-    let idb = ident(1);
-    let idref = unsafe { idb.as_ref() };
-    let a = any_wf_allocator(idref);
-    assert!(a.free.len() <= N);
-}
-
-#[kani::proof]
-#[kani::unwind(6)]
-fn probe_p4_free_get() {
-    let idb = ident(1);
-    let idref = unsafe { idb.as_ref() };
-    let a = any_wf_allocator(idref);
-    if let Some(x) = a.free.get(0) { assert!(*x < N); }
-    if let Some(x) = a.free.get(1) { assert!(*x < N); }
 }
